@@ -7,6 +7,10 @@ def check(c):
     thorough = c.tier == "thorough"
     c.build_driver()
     servelib.model(c, "DispatchRule OnlyDocumentedEdits", [])
+    # a request must be ANSWERED - also when its handler calls methods of its own middleware: MwLock.tla (no lock held across the
+    # handler, deadlock freedom, termination under fairness; the twin that defers RUnlock deadlocks)
+    import lifelib
+    lifelib.lock_model(c)
     n = 4 if thorough else 1
     shards = [["-mode", "universe", "-configs", "12" if thorough else "9"] + (["-big"] if thorough else []) for _ in range(n)]
     tot = servelib.run_serve(c, "C11", shards, "dispatch / pass-through violated", conform=True)
